@@ -103,7 +103,17 @@ package engine
 //@ ensures result == nil ==> wfPath(sPath) && len(sPath.path) == old(len(sPath.path)) && (forall i :: 0 <= i && i < len(sPath.path) ==> sPath.path[i] == old(sPath.path[i]))
 //@ ensures result == nil <==> dom(p.retMap, name)
 //@ ensures forall e *ast.CallExpr :: e.PrivateData == old(e.PrivateData) || bound(e, p.allNg)
+// C09 / C17: the chain of call sites.  An error coming back from a used script is extended by exactly one entry: this
+// script's name with the position of the use() call that led there (the call site being processed - not a position
+// left behind by the traversal of the callee); an error raised here (missing script) is at that same call site; a
+// cycle is reported at the call site the caller recorded before descending.
+//@ ensures[C09,C17] ncalls((*PlError).ChainAppend) <= 1 && ncalls(NewErr) <= 1
+//@ ensures[C09,C17] ncalls((*PlError).ChainAppend) == 1 ==> ncalls(getParamRefScript) >= 1 && callarg((*PlError).ChainAppend, 0, 1) == procc.Name && callarg((*PlError).ChainAppend, 0, 2) == callarg(getParamRefScript, ncalls(getParamRefScript) - 1, 0).NamePos
+//@ ensures[C09,C17] ncalls(NewErr) == 1 && ncalls(getParamRefScript) >= 1 ==> callarg(NewErr, 0, 0) == procc.Name && callarg(NewErr, 0, 1) == callarg(getParamRefScript, ncalls(getParamRefScript) - 1, 0).NamePos
+//@ ensures[C09,C17] ncalls(NewErr) == 1 && ncalls(getParamRefScript) == 0 ==> callarg(NewErr, 0, 0) == old(p.name) && callarg(NewErr, 0, 1) == old(p.namePos)
 //@ loop 1
+//@ invariant[C09,C17] ncalls((*PlError).ChainAppend) == 0 && ncalls(NewErr) == 0 && ncalls(getParamRefScript) == tomath(rangeindex) + 1
+//@ invariant[C09,C17] rangeindex >= 0 ==> callarg(getParamRefScript, tomath(rangeindex), 0) == procc.CallRef[rangeindex]
 //@ invariant wfPath(sPath) && resolvedOK(p) && len(sPath.path) == old(len(sPath.path)) + 1 && sPath.path[len(sPath.path)-1] == name
 //@ invariant forall i :: 0 <= i && i < old(len(sPath.path)) ==> sPath.path[i] == old(sPath.path[i])
 //@ invariant forall n string :: old(dom(p.retMap, n)) ==> dom(p.retMap, n)
